@@ -178,6 +178,9 @@ def gen_case(S, tier, prop, force=None):
                 Tg = T
         gop["grid"] = gen_grid(rng, t0, Tg, start_at_t0=rng.random() < 0.8)
         gop["gtype"] = rng.choice(["array", "array", "list", "tuple"])
+        if exact and rng.random() < 0.5:
+            gop["adv"] = [[round(rng.random(), 4), rng.choice([-1, 1]) * rng.choice([1e-5, 1e-6, 1e-7, 1e-8, 1e-9, 1e-10, 3e-12])]
+                          for _ in range(rng.randint(1, 4))]
         gop.pop("T", None)
         ops = [gop] if force.get("grid") == "only" else [op, gop]
     if force.get("direct"):
@@ -273,6 +276,8 @@ class Session(object):
 
     def fired(self):
         f = dict(self.r.fired)
+        if getattr(self, "adv_fired", 0):
+            f["G.near_event"] = self.adv_fired
         if self.k is not None:
             for k_, v in self.k.fired.items():
                 f[k_] = f.get(k_, 0) + v
@@ -705,6 +710,22 @@ def run_grid(sess, op, out, stats, log):
         sess.r.reset_log()
         rX, rJ, rT = ode.solve_stochast(np_time(grid[-1]), n, exact=exact, full_output=True)
         ndraw_raw = len(sess.r.log)
+        if op.get("adv"):
+            # fault G.near_event: requested times placed a hair before / after actual event times of the
+            # underlying path (known from the raw run of the identical stream); first and last stay
+            T0 = np.asarray(rT[0], float)
+            pts = set(grid)
+            for frac, off in op["adv"]:
+                if len(T0) < 2:
+                    break
+                te = float(T0[1 + int(frac * (len(T0) - 2))]) if len(T0) > 2 else float(T0[1])
+                g_ = te + off * max(1.0, abs(te))
+                if grid[0] < g_ < grid[-1]:
+                    pts.add(g_)
+                    sess.adv_fired = getattr(sess, "adv_fired", 0) + 1
+            grid = sorted(pts)
+            G = len(grid)
+            op = dict(op, grid=grid)
         sess.r.reseed(op["seed"])
         sess.r.reset_log()
         gX, gJ, gT = ode.solve_stochast(make_grid_arg(op), n, exact=exact, full_output=True)
